@@ -55,6 +55,8 @@ pub fn build_text(c: &Value) -> String {
     lines.push("[r](2)".into());
     lines.push(String::new());
     lines.push("- item [i](2)".into());
+    lines.push(String::new());
+    lines.push("> [q](2)".into());
     let mut t = String::new();
     for (i, l) in lines.iter().enumerate() {
         t.push_str(l);
@@ -154,7 +156,7 @@ fn run_case(c: &Value) -> Value {
         if kinds.iter().any(|k| k == "refactor.rewrite.list.type") {
             list_lines.push(line);
         }
-        if kinds.iter().any(|k| k == "refactor.inline.reference.section") {
+        if kinds.iter().any(|k| k == "refactor.inline.reference.section" || k == "refactor.inline.reference.quote") {
             inline_lines.push(line);
         }
         if kinds.iter().any(|k| k == "refactor.rewrite.section.list") {
